@@ -1,7 +1,7 @@
 SPECIFICATION Spec
 CONSTANTS
-Coefs = {0, 1, 2, 3, 4, 5, 6, 7, 8}
-CD = 8
+Coefs = {0, 1, 2, 3, 4, 5, 6, 8, 10, 12, 14, 15, 16}
+CD = 16
 Bounds = {0, 1, 2, 3, 4, 5}
 INVARIANTS InUnitInterval Finite SeriesAgrees FirstLevelRule
 PROPERTIES StrictlyMonotone
